@@ -26,6 +26,7 @@ func init() {
 	ruleText["R19.3"] = "in (*Debugger).exec the call of (*node).shouldBreak dominates every 'return false' whose guarding condition reads the routine's mode or step depth"
 	ruleText["R19.4"] = "in the goroutine started by (*Interpreter).Debug a deferred call of the events callback with reason DebugTerminate is registered before ExecuteWithContext is called"
 	ruleText["R19.5"] = "the function literal passed to (*node).Walk by SetBreakpoints returns only the constant true"
+	ruleText["R19.7"] = "in SetBreakpoints every call that can store into a breakpoint flag of nodeDebugData lies in the section guarded by one request table of breakpointSetup, and distinct flags belong to distinct tables: placing or resetting one kind of breakpoint never touches the other kind"
 	ruleText["R19.6"] = "in every closure using reflect.Value.TryRecv (cancellable receive), a status stored with SetBool is the ok result reported by reflect (TryRecv/Recv/Select) or the literal true under an if on exactly that ok"
 }
 
@@ -41,6 +42,7 @@ func runC19(c *Config, r *Report) {
 	c19R4(ic, r)
 	c19R5(ic, r)
 	c19R6(ic, r)
+	c19R7(ic, r)
 	c09R1(ic, r, "R19.2")
 }
 
@@ -481,6 +483,161 @@ func c19R5(ic *IC, r *Report) {
 	})
 	if n == 0 {
 		r.Errorf("R19.5: no Walk call with a function literal found in SetBreakpoints")
+	}
+}
+
+// c19R7: the breakpoint kinds are independent. A reset of stale line breakpoints that also
+// clears the function-breakpoint flag erases a breakpoint placed earlier in the same walk.
+func c19R7(ic *IC, r *Report) {
+	fi := ic.fn(r, "Debugger.SetBreakpoints")
+	if fi == nil {
+		return
+	}
+	ndd, _ := ic.Pk.Types.Scope().Lookup("nodeDebugData").(*types.TypeName)
+	bps, _ := ic.Pk.Types.Scope().Lookup("breakpointSetup").(*types.TypeName)
+	if ndd == nil || bps == nil {
+		r.Errorf("anchor not resolved: types nodeDebugData / breakpointSetup")
+		return
+	}
+	flags := map[*types.Var]bool{}
+	if st, ok := ndd.Type().Underlying().(*types.Struct); ok {
+		for i := 0; i < st.NumFields(); i++ {
+			if b, ok := st.Field(i).Type().Underlying().(*types.Basic); ok && b.Kind() == types.Bool {
+				flags[st.Field(i)] = true
+			}
+		}
+	}
+	tables := map[*types.Var]bool{}
+	if st, ok := bps.Type().Underlying().(*types.Struct); ok {
+		for i := 0; i < st.NumFields(); i++ {
+			if _, ok := st.Field(i).Type().Underlying().(*types.Map); ok {
+				tables[st.Field(i)] = true
+			}
+		}
+	}
+	if len(flags) < 2 || len(tables) < 2 {
+		r.Errorf("R19.7: %d breakpoint flags and %d request tables found (2 and 2 expected)", len(flags), len(tables))
+		return
+	}
+	// direct writers of each flag, then callers within the package (bounded closure)
+	writes := map[*types.Func]map[*types.Var]bool{}
+	for _, name := range sortedKeys(ic.F) {
+		f := ic.F[name]
+		if f.Decl.Body == nil || f.Obj == nil {
+			continue
+		}
+		ast.Inspect(f.Decl.Body, func(n ast.Node) bool {
+			if as, ok := n.(*ast.AssignStmt); ok {
+				for _, l := range as.Lhs {
+					if v := selField(ic.Info, l); v != nil && flags[v] {
+						if writes[f.Obj] == nil {
+							writes[f.Obj] = map[*types.Var]bool{}
+						}
+						writes[f.Obj][v] = true
+					}
+				}
+			}
+			return true
+		})
+	}
+	for round := 0; round < 4; round++ {
+		for _, name := range sortedKeys(ic.F) {
+			f := ic.F[name]
+			if f.Decl.Body == nil || f.Obj == nil || f == fi {
+				continue
+			}
+			ast.Inspect(f.Decl.Body, func(n ast.Node) bool {
+				if c, ok := n.(*ast.CallExpr); ok {
+					if callee, ok := calleeOf(ic.Info, c).(*types.Func); ok && writes[callee] != nil && callee != f.Obj {
+						for v := range writes[callee] {
+							if writes[f.Obj] == nil {
+								writes[f.Obj] = map[*types.Var]bool{}
+							}
+							writes[f.Obj][v] = true
+						}
+					}
+				}
+				return true
+			})
+		}
+	}
+	// sections of SetBreakpoints
+	section := map[*types.Var]map[string]token.Pos{}
+	note := func(flag *types.Var, at ast.Node) {
+		path := enclosingPath(fi.Decl.Body, at)
+		tabs := map[string]bool{}
+		for _, p := range path {
+			ifs, ok := p.(*ast.IfStmt)
+			if !ok {
+				continue
+			}
+			ast.Inspect(ifs.Cond, func(m ast.Node) bool {
+				if v := selFieldNode(ic.Info, m); v != nil && tables[v] {
+					tabs[v.Name()] = true
+				}
+				return true
+			})
+		}
+		key := joinSorted(tabs)
+		if key == "" {
+			key = "(no request table)"
+		}
+		if section[flag] == nil {
+			section[flag] = map[string]token.Pos{}
+		}
+		if _, ok := section[flag][key]; !ok {
+			section[flag][key] = at.Pos()
+		}
+	}
+	ast.Inspect(fi.Decl.Body, func(n ast.Node) bool {
+		switch x := n.(type) {
+		case *ast.CallExpr:
+			if callee, ok := calleeOf(ic.Info, x).(*types.Func); ok {
+				for v := range writes[callee] {
+					note(v, x)
+				}
+			}
+		case *ast.AssignStmt:
+			for _, l := range x.Lhs {
+				if v := selField(ic.Info, l); v != nil && flags[v] {
+					note(v, x)
+				}
+			}
+		}
+		return true
+	})
+	owner := map[string]string{}
+	var names []string
+	byName := map[string]*types.Var{}
+	for v := range flags {
+		names = append(names, v.Name())
+		byName[v.Name()] = v
+	}
+	sort.Strings(names)
+	written := 0
+	for _, fn := range names {
+		secs := section[byName[fn]]
+		if len(secs) == 0 {
+			continue
+		}
+		written++
+		ks := sortedKeys(secs)
+		ok := len(ks) == 1 && ks[0] != "(no request table)" && !strings.Contains(ks[0], " ")
+		var where []string
+		for _, k := range ks {
+			where = append(where, k+" at "+ic.pos(secs[k]))
+		}
+		r.Check(ok, "R19.7", "SetBreakpoints/flag:"+fn, ic.pos(fi.Decl.Pos()), "written only in the section of request table "+ks[0],
+			"the breakpoint flag "+fn+" is written in the sections guarded by "+strings.Join(where, "; ")+": setting or resetting breakpoints of one kind changes the flag of the other kind, so a breakpoint placed earlier in the same request is erased and never reported")
+		if ok {
+			if o, dup := owner[ks[0]]; dup {
+				r.Fail("R19.7", "SetBreakpoints/table:"+ks[0], ic.pos(fi.Decl.Pos()), "flags "+o+" and "+fn+" are both written in the section of request table "+ks[0])
+			}
+			owner[ks[0]] = fn
+		}
+	}
+	if written < 2 {
+		r.Errorf("R19.7: only %d breakpoint flags are written from SetBreakpoints", written)
 	}
 }
 
